@@ -8,6 +8,18 @@
 //   stage 1 (safety): every `low_link[&x]` hits a key, `i += 1` cannot overflow (i = #indexed < |V| <= usize::MAX), the
 //            recursion terminates (measure |V| - i), the pop loop terminates and stops at u.
 //   stage 2 (partition), stage 3 (soundness), stage 4 (completeness): separate ensures clauses of `components`.
+// Proof idea (no ghost "gray" set needed; everything is stated relative to the frame of one connect(u) call, s0 = entry state):
+//   tinv: structure + R1 (earlier stack entries reach later ones) + sound (members of a component mutually reachable)
+//         + topo (arcs out of component j lead into components 0..=j, i.e. reverse topological emission order);
+//   cinv: stack = s0.stack ++ [u] ++ new; F (entries above u reach u); LR (low_link[u] = index of a stack entry not above u
+//         that u reaches); E (arcs from the new stack part / processed arcs of u into the old stack bound low_link[u]);
+//         W (vertices indexed during the call, except u, have only indexed out-neighbours);
+//   tpost: either the stack is as at entry and low_link[u] == index[u] (component emitted) or u stays on the stack with
+//         low_link[u] = index of an OLD stack entry reached by u; with an empty stack at entry only the first case remains.
+//   completeness = topo + walk induction (lemma_topo_walk, lemma_reach_comp_le).
+// Assumptions: prelude/dg_any.rs (trait contracts of Vertices / OutNeighbors for an arbitrary vertex set; |V| <= usize::MAX),
+//   prelude/tarjan_std.rs (BTreeMap `Index<&Q>`: allowed when the key is present, returns the stored value; `Ord::min` via the
+//   E12 wrapper vx_min). No @manual replacement.
 #![feature(allocator_api)]
 use vstd::prelude::*;
 use vstd::std_specs::iter::IteratorSpec;
